@@ -21,6 +21,8 @@ COMP = (ast.ListComp, ast.SetComp, ast.DictComp, ast.GeneratorExp)
 FUNC = (ast.FunctionDef, ast.AsyncFunctionDef)
 TYPE_PARAM_NODES = tuple(getattr(ast, n) for n in ('TypeVar', 'TypeVarTuple', 'ParamSpec') if hasattr(ast, n))
 TYPE_ALIAS = getattr(ast, 'TypeAlias', ())
+MATCH_NAME_NODES = tuple(getattr(ast, n) for n in ('MatchAs', 'MatchStar') if hasattr(ast, n))
+MATCH_MAPPING = getattr(ast, 'MatchMapping', ())
 
 
 class Scope(object):
@@ -267,9 +269,9 @@ class Resolver(object):
                     out.append(sub.asname or sub.name.split('.')[0])
                 elif isinstance(sub, ast.ExceptHandler) and sub.name:
                     out.append(sub.name)
-                elif isinstance(sub, (ast.MatchAs, ast.MatchStar)) and sub.name:
+                elif isinstance(sub, MATCH_NAME_NODES) and sub.name:
                     out.append(sub.name)
-                elif isinstance(sub, ast.MatchMapping) and sub.rest:
+                elif isinstance(sub, MATCH_MAPPING) and sub.rest:
                     out.append(sub.rest)
             return out
 
